@@ -1336,3 +1336,78 @@ Qed.
 Lemma io_stream : forall ops, let p := io_run ops in
   io_ok p = true /\ readout p ++ concat (slices (pbuf p)) = written p /\ blen (pbuf p) = total (slices (pbuf p)).
 Proof. intro ops. destruct (pinv_run ops) as [A B C]. auto. Qed.
+
+(* ---------------------------------------------------------------------------------------- *)
+(* full duplex: Read and Write of one conn interleaved                                        *)
+(* ---------------------------------------------------------------------------------------- *)
+Record DxInv (d : duplex) : Prop := {
+  x_ok : dx_ok d = true;
+  x_recv : dx_got d ++ concat (slices (dx_recv d)) = dx_arrived d;
+  x_len : blen (dx_recv d) = total (slices (dx_recv d));
+  x_send : dx_wire d ++ dx_sendbuf d = dx_written d ++ match dx_wpc d with Some p => p | None => [] end;
+  x_idle : dx_wpc d = None -> dx_sendbuf d = [] }.
+
+Lemma dxinv_init : DxInv dx0.
+Proof. constructor; cbn; auto. Qed.
+
+Lemma dxinv_step : forall d e, DxInv d -> DxInv (dx_step false d e).
+Proof.
+  intros d e HI. destruct e as [chunks|lenp|p|]; cbn [dx_step].
+  - constructor; cbn [dx_ok dx_got dx_recv dx_arrived dx_wire dx_sendbuf dx_written dx_wpc slices blen];
+      try (exact (x_ok d HI)); try (exact (x_send d HI)); try (exact (x_idle d HI)).
+    + rewrite concat_app, app_assoc, (x_recv d HI). reflexivity.
+    + unfold total in *. rewrite concat_app, app_length, (x_len d HI). unfold total. lia.
+  - destruct ((blen (dx_recv d) <? 1)%nat || Nat.eqb lenp 0) eqn:EG; [exact HI|].
+    apply orb_false_elim in EG. destruct EG as [E1 E2]. apply Nat.ltb_ge in E1. apply Nat.eqb_neq in E2.
+    pose proof (read_contract (dx_recv d) lenp (MoreErr RTimeout) (x_len d HI) ltac:(lia) E1) as RC. cbn zeta in RC.
+    destruct (lb_read (dx_recv d) lenp (MoreErr RTimeout)) as [[out err] b'].
+    destruct RC as [R1 [R2 [R3 [R4 [R5 R6]]]]]. subst err. cbn [andb].
+    constructor; cbn [dx_ok dx_got dx_recv dx_arrived dx_wire dx_sendbuf dx_written dx_wpc];
+      try (exact (x_send d HI)); try (exact (x_idle d HI)); try assumption.
+    + rewrite (x_ok d HI). cbn [andb].
+      replace (1 <=? length out)%nat with true by (symmetry; apply Nat.leb_le; lia).
+      replace (length out <=? lenp)%nat with true by (symmetry; apply Nat.leb_le; lia). reflexivity.
+    + rewrite <- app_assoc, <- R5. exact (x_recv d HI).
+  - destruct (dx_wpc d) eqn:EW; [exact HI|]. destruct p as [|b p]; [exact HI|].
+    constructor; cbn [dx_ok dx_got dx_recv dx_arrived dx_wire dx_sendbuf dx_written dx_wpc];
+      try (exact (x_ok d HI)); try (exact (x_recv d HI)); try (exact (x_len d HI)).
+    + pose proof (x_send d HI) as E. rewrite EW, app_nil_r in E. rewrite app_assoc, E. reflexivity.
+    + discriminate.
+  - destruct (dx_wpc d) eqn:EW; [|exact HI].
+    constructor; cbn [dx_ok dx_got dx_recv dx_arrived dx_wire dx_sendbuf dx_written dx_wpc];
+      try (exact (x_ok d HI)); try (exact (x_recv d HI)); try (exact (x_len d HI)).
+    + rewrite !app_nil_r. pose proof (x_send d HI) as E. rewrite EW in E. exact E.
+    + reflexivity.
+Qed.
+
+Lemma dxinv_run : forall evs, DxInv (dx_run false evs).
+Proof.
+  intro evs. unfold dx_run. assert (H0 := dxinv_init). revert H0. generalize dx0.
+  induction evs as [|e r IH]; intros d HI; cbn; [assumption|]. apply IH. apply dxinv_step. assumption.
+Qed.
+
+(* the frame property: Read does not touch the send side, Write does not touch the receive side *)
+Lemma dx_read_frame : forall d lenp, let d' := dx_step false d (DxRead lenp) in
+  dx_sendbuf d' = dx_sendbuf d /\ dx_wire d' = dx_wire d /\ dx_wpc d' = dx_wpc d /\ dx_written d' = dx_written d.
+Proof.
+  intros d lenp. cbn [dx_step]. destruct ((blen (dx_recv d) <? 1)%nat || Nat.eqb lenp 0); [auto|].
+  destruct (lb_read (dx_recv d) lenp (MoreErr RTimeout)) as [[out err] b']. cbn. auto.
+Qed.
+
+Lemma dx_write_frame : forall d e, (exists p, e = DxWriteBytes p) \/ e = DxFlush -> let d' := dx_step false d e in
+  dx_recv d' = dx_recv d /\ dx_got d' = dx_got d /\ dx_arrived d' = dx_arrived d /\ dx_ok d' = dx_ok d.
+Proof.
+  intros d e [[p ->]| ->]; cbn [dx_step].
+  - destruct (dx_wpc d); [auto|]. destruct p; cbn; auto.
+  - destruct (dx_wpc d); cbn; auto.
+Qed.
+
+Lemma io_duplex : forall evs, let d := dx_run false evs in
+  dx_ok d = true /\
+  dx_got d ++ concat (slices (dx_recv d)) = dx_arrived d /\
+  dx_wire d ++ dx_sendbuf d = dx_written d ++ match dx_wpc d with Some p => p | None => [] end /\
+  (dx_wpc d = None -> dx_wire d = dx_written d).
+Proof.
+  intros evs d. destruct (dxinv_run evs) as [A B C D E]. fold d in A, B, C, D, E.
+  repeat split; try assumption. intro H. pose proof (E H) as Es. rewrite H, Es, !app_nil_r in D. exact D.
+Qed.
